@@ -41,6 +41,9 @@ type PodSpec struct {
 	Ranges [][]string `json:"ranges"`
 	// RawRanges, if set, are literal request_ip_range strings (C13)
 	RawRanges [][]string `json:"-"`
+	// ArgsAnn, if set for a pod without ranges, is the literal value of the cni args annotation: "empty" (present but
+	// empty), "null", "{}" -- all mean "no arguments" (typed-surface robustness, C18)
+	ArgsAnn string `json:"-"`
 }
 
 // PodView is the abstract view of a pod object (API truth, lister copy or event snapshot).
@@ -79,6 +82,9 @@ func BuildPod(s PodSpec, uid string) *corev1.Pod {
 	}
 	if s.Pool != "" {
 		p.Annotations[constant.IPPoolAnnotation] = s.Pool
+	}
+	if len(s.Ranges) == 0 && len(s.RawRanges) == 0 && s.ArgsAnn != "" {
+		p.Annotations[constant.ExtendedCNIArgsAnnotation] = map[string]string{"empty": "", "null": "null", "{}": "{}"}[s.ArgsAnn]
 	}
 	if len(s.Ranges) > 0 || len(s.RawRanges) > 0 {
 		var rr [][]string
